@@ -40,7 +40,45 @@ type tracer struct {
 	terminate      chan struct{}
 	done           chan struct{}
 	subscribers    []chan ITrace
-	senders        sync.WaitGroup
+	senders        senderGroup
+}
+
+// senderGroup counts registered senders. Unlike a sync.WaitGroup it tolerates
+// a sender registering while the tracer is already waiting for the count to
+// drop to zero (a flow or node goroutine started just before the cancellation
+// registers a moment after it): with a WaitGroup that interleaving panics
+// ("WaitGroup is reused before previous Wait has returned").
+type senderGroup struct {
+	mu    sync.Mutex
+	cond  *sync.Cond
+	count int
+}
+
+func (g *senderGroup) add() {
+	g.mu.Lock()
+	g.count++
+	g.mu.Unlock()
+}
+
+// Done indicates that a sender has terminated
+func (g *senderGroup) Done() {
+	g.mu.Lock()
+	g.count--
+	if g.count <= 0 && g.cond != nil {
+		g.cond.Broadcast()
+	}
+	g.mu.Unlock()
+}
+
+func (g *senderGroup) wait() {
+	g.mu.Lock()
+	if g.cond == nil {
+		g.cond = sync.NewCond(&g.mu)
+	}
+	for g.count > 0 {
+		g.cond.Wait()
+	}
+	g.mu.Unlock()
 }
 
 func NewTracer(ctx context.Context) ITracer {
@@ -97,7 +135,7 @@ func (t *tracer) run(ctx context.Context) {
 			termination.Do(func() {
 				go func() {
 					// Wait until all senders have terminated
-					t.senders.Wait()
+					t.senders.wait()
 					// Send an internal termination message
 					t.terminate <- struct{}{}
 				}()
@@ -161,7 +199,7 @@ func (t *tracer) Send(trace ITrace) {
 }
 
 func (t *tracer) RegisterSender() ISenderHandle {
-	t.senders.Add(1)
+	t.senders.add()
 	return &t.senders
 }
 
